@@ -726,7 +726,7 @@ struct C18 {
             case K_UNIFORM: gen_uniform(op, r); break;
             case K_SCALAR_ED: case K_SCALAR_RIS: gen_scalar(op, r); break;
             case K_PWHASH_STR: op.arg = (uint32_t) r.below(4); plain = 16; break;
-            case K_BUF: case K_LEGACY: op.arg = (uint32_t) r.pick<uint32_t>({0, 1, 4, 31, 32, 33, 64, 255, 256, 257, 300, 511, 512, 513, 600, 768, 1000, 1025, 4113}); plain = op.arg; break;
+            case K_BUF: case K_LEGACY: op.arg = (uint32_t) r.pick<uint32_t>({0, 1, 4, 31, 32, 33, 64, 255, 256, 257, 300, 511, 512, 513, 600, 768, 1000, 1025, 4113, 0, 32, 64, 256, 16385}); plain = op.arg; break;
             case K_DETERMINISTIC: op.arg = (uint32_t) (r.chance(1, 3) ? r.pick<uint32_t>({0, 1, 63, 64, 65, 127, 128, 129, 255, 256, 257, 320, 511, 512, 513, 767, 768, 769, 1023, 1024, 1025, 1100}) : r.below(1101)); break;
             case K_RANDOM: plain = 4; break;
             case K_POINT_RIS: plain = 64; break;
